@@ -125,6 +125,7 @@ struct BatchResult {
     failures: Vec<(String, String, Value)>,
     inconclusive: Vec<String>,
     feature_counts: BTreeMap<&'static str, u64>,
+    excluded_counts: BTreeMap<&'static str, u64>,
     shapes: BTreeSet<u64>,
     samples: Vec<Value>,
 }
@@ -179,17 +180,28 @@ fn panic_site(stderr: &str) -> (String, Vec<String>) {
     (site, head)
 }
 
-fn run_batch(bin: &Path, base: &Universe, hs: &[Host], programs: &[(usize, Vec<u8>)], slot: usize, runs_per_entry: usize, seed: u64, text_override: Option<&(String, Vec<String>)>) -> BatchResult {
-    let mut res = BatchResult { programs: 0, frames: 0, failures: vec![], inconclusive: vec![], feature_counts: BTreeMap::new(), shapes: BTreeSet::new(), samples: vec![] };
+pub struct Case {
+    pub name: String,
+    pub body: String,
+    pub aux: Vec<String>,
+}
+
+fn run_batch(bin: &Path, base: &Universe, hs: &[Host], programs: &[(usize, Vec<u8>, Option<Case>)], slot: usize, runs_per_entry: usize, seed: u64) -> BatchResult {
+    let mut res = BatchResult { programs: 0, frames: 0, failures: vec![], inconclusive: vec![], feature_counts: BTreeMap::new(), excluded_counts: BTreeMap::new(), shapes: BTreeSet::new(), samples: vec![] };
     let _ = base;
     let mut placed: Vec<(&Host, Program, Vec<u8>)> = Vec::new();
-    for (k, (hi, tape)) in programs.iter().enumerate() {
-        let p = match text_override {
-            Some((body, aux)) => Program { aux: aux.clone(), body: body.clone(), features: BTreeSet::new() },
+    let mut case_names: Vec<Option<String>> = Vec::new();
+    for (k, (hi, tape, case)) in programs.iter().enumerate() {
+        let p = match case {
+            Some(c) => Program { aux: c.aux.clone(), body: c.body.clone(), features: BTreeSet::new(), excluded: vec![] },
             None => build_program(tape, k + slot * 1000),
         };
+        case_names.push(case.as_ref().map(|c| c.name.clone()));
         for f in &p.features {
             *res.feature_counts.entry(f).or_insert(0) += 1;
+        }
+        for f in &p.excluded {
+            *res.excluded_counts.entry(f).or_insert(0) += 1;
         }
         placed.push((&hs[*hi], p, tape.clone()));
     }
@@ -244,6 +256,7 @@ fn run_batch(bin: &Path, base: &Universe, hs: &[Host], programs: &[(usize, Vec<u
                 match culprit {
                     Some(i) => {
                         let (h, p, tape) = &placed[i];
+                        let site = match &case_names[i] { Some(n) => format!("case:{}:{}", n, site), None => site };
                         res.failures.push((format!("c07:generator-stops:{}", site), format!("the generator stops (exit {:?}) on a well-formed definition placed in {}: {}", run.status, h.name, head.join(" | ")), prog_json(h, p, tape)));
                         active[i] = false;
                         continue;
@@ -290,6 +303,7 @@ fn run_batch(bin: &Path, base: &Universe, hs: &[Host], programs: &[(usize, Vec<u
                 let msg = first.splitn(2, ": ").nth(1).unwrap_or(first);
                 if let Some(i) = hit {
                     let (h, p, tape) = &placed[i];
+                    let code = match &case_names[i] { Some(n) => format!("case:{}:{}", n, code), None => code };
                     res.failures.push((format!("c07:generated-code-does-not-compile:{}:{}", code, norm_msg(msg)), format!("the code generated for a well-formed definition (placed in {}) does not compile: {} at {}", h.name, first, file.replace(&t.scratch.root.to_string_lossy().to_string(), "")), prog_json(h, p, tape)));
                     active[i] = false;
                     removed = true;
@@ -359,7 +373,7 @@ fn run_batch(bin: &Path, base: &Universe, hs: &[Host], programs: &[(usize, Vec<u
             let kind: Option<(String, String)> = if rest == "PANIC" {
                 Some(("codec-panics".into(), "the generated codec panics".into()))
             } else if let Some(e) = rest.strip_prefix("ERR ") {
-                let class = e.splitn(2, ' ').nth(1).unwrap_or("").split(|c: char| !c.is_ascii_alphanumeric() && c != '_').filter(|w| w.chars().next().map(|c| c.is_ascii_uppercase()).unwrap_or(false)).take(3).collect::<Vec<_>>().join("-");
+                let class = e.split("kind: ").nth(1).unwrap_or(e).split(|c: char| !c.is_ascii_alphanumeric() && c != '_').next().unwrap_or("").to_string();
                 Some((format!("canonical-encoding-rejected:{}", class), format!("rejected: {}", e.chars().take(200).collect::<String>())))
             } else {
                 let consumed = rest.split("consumed=").nth(1).and_then(|s| s.split_whitespace().next()).and_then(|s| s.parse::<usize>().ok()).unwrap_or(0);
@@ -382,7 +396,8 @@ fn run_batch(bin: &Path, base: &Universe, hs: &[Host], programs: &[(usize, Vec<u
                     d["frame"] = json!(vcommon::hex(frame));
                     d["encoder_tape"] = json!(vcommon::hex(tape));
                     d["forced"] = forced_json(forced);
-                    let shape = p.features.iter().cloned().collect::<Vec<_>>().join("+");
+                    let shape = match &case_names[*pi] { Some(n) => format!("case:{}", n), None => p.features.iter().cloned().collect::<Vec<_>>().join("+") };
+                    d["case"] = json!(case_names[*pi]);
                     res.failures.push((format!("c07:{}:{}", k, shape), format!("definition placed in {}: {} for frame {}", h.name, what, vcommon::hex_short(frame)), d));
                 }
             } else if res.samples.len() < 2 && id % 211 == 0 {
@@ -422,16 +437,17 @@ pub fn run(tier: Tier, replay: Option<String>) -> i32 {
     let seed = c.seed;
     let batches = tier.pick(6usize, 96);
     let per_batch = tier.pick(60usize, 80).min(hs.len());
-    let mut text_override: Option<(String, Vec<String>)> = None;
-    let plan: Vec<Vec<(usize, Vec<u8>)>> = if let Some(p) = &replay {
+    let mut plan: Vec<Vec<(usize, Vec<u8>, Option<Case>)>> = if let Some(p) = &replay {
         let j = vcommon::read_json(Path::new(p));
         // a replay file may carry the definition as text (hand-reduced reproductions)
-        if j["use_text"].as_bool() == Some(true) {
-            text_override = Some((j["members"].as_str().unwrap_or("").to_string(), j["definitions"].as_array().cloned().unwrap_or_default().iter().filter_map(|x| x.as_str().map(|s| s.to_string())).collect()));
-        }
+        let case = if j["use_text"].as_bool() == Some(true) || j["tape"].as_str().map(|t| t.is_empty()).unwrap_or(true) {
+            Some(Case { name: j["case"].as_str().unwrap_or("replayed").to_string(), body: j["members"].as_str().unwrap_or("").to_string(), aux: j["definitions"].as_array().cloned().unwrap_or_default().iter().filter_map(|x| x.as_str().map(|s| s.to_string())).collect() })
+        } else {
+            None
+        };
         let name = j["host_message"].as_str().unwrap_or("");
         match hs.iter().position(|h| h.name == name) {
-            Some(hi) => vec![vec![(hi, vcommon::unhex(j["tape"].as_str().unwrap_or("")))]],
+            Some(hi) => vec![vec![(hi, vcommon::unhex(j["tape"].as_str().unwrap_or("")), case)]],
             None => {
                 eprintln!("host message of the replay not available");
                 return 2;
@@ -441,15 +457,46 @@ pub fn run(tier: Tier, replay: Option<String>) -> i32 {
         let mut runner = vcommon::runner(seed, 0x0707, 1);
         let strat = proptest::collection::vec(proptest::collection::vec(proptest::collection::vec(proptest::prelude::any::<u8>(), 64), per_batch), batches);
         let draws = strat.new_tree(&mut runner).map(|t| t.current()).unwrap_or_default();
-        draws.into_iter().enumerate().map(|(b, tapes)| tapes.into_iter().enumerate().map(|(k, t)| ((k + b * 7) % hs.len(), t)).collect::<Vec<_>>()).map(|v| {
+        draws.into_iter().enumerate().map(|(b, tapes)| tapes.into_iter().enumerate().map(|(k, t)| ((k + b * 7) % hs.len(), t, None)).collect::<Vec<_>>()).map(|v| {
             // one program per host
             let mut seen = BTreeSet::new();
-            v.into_iter().filter(|(h, _)| seen.insert(*h)).collect()
+            v.into_iter().filter(|(h, _, _)| seen.insert(*h)).collect()
         }).collect()
     };
+    // directed cases: hand-reduced definitions, among them the reproductions of the recorded findings
+    if replay.is_none() {
+        let cases = vcommon::read_json(&vcommon::verif_root().join("genchecks/c07_cases.json"));
+        let mut batch = Vec::new();
+        let mut own: Vec<Vec<(usize, Vec<u8>, Option<Case>)>> = Vec::new();
+        let mut hi = hs.len();
+        for cj in cases.as_array().cloned().unwrap_or_default() {
+            let aux: Vec<String> = cj["definitions"].as_array().cloned().unwrap_or_default().iter().filter_map(|x| x.as_str().map(|s| s.to_string())).collect();
+            let name = cj["name"].as_str().unwrap_or("case").to_string();
+            let mut items = Vec::new();
+            hi -= 1;
+            items.push((hi, vec![], Some(Case { name: name.clone(), body: cj["members"].as_str().unwrap_or("").to_string(), aux })));
+            if let Some(m2) = cj["second_members"].as_str() {
+                hi -= 1;
+                items.push((hi, vec![], Some(Case { name, body: m2.to_string(), aux: vec![] })));
+            }
+            if cj["own_tree"].as_bool() == Some(true) {
+                own.push(items);
+            } else {
+                batch.extend(items);
+            }
+        }
+        c.extra.insert("directed_cases".into(), json!(batch.len() + own.len()));
+        if std::env::var("VERIF_C07_ONLY_CASES").is_ok() {
+            plan.clear();
+        }
+        plan.insert(0, batch);
+        for o in own {
+            plan.insert(0, o);
+        }
+    }
     let pool = rayon::ThreadPoolBuilder::new().num_threads(6).build().unwrap();
     let runs = tier.pick(60usize, 400);
-    let results: Vec<BatchResult> = pool.install(|| plan.par_iter().map(|b| run_batch(&bin, &u, &hs, b, rayon::current_thread_index().unwrap_or(0), runs, seed, text_override.as_ref())).collect());
+    let results: Vec<BatchResult> = pool.install(|| plan.par_iter().map(|b| run_batch(&bin, &u, &hs, b, rayon::current_thread_index().unwrap_or(0), runs, seed)).collect());
     let mut reported = BTreeSet::new();
     let mut programs = 0;
     for r in results {
@@ -460,6 +507,9 @@ pub fn run(tier: Tier, replay: Option<String>) -> i32 {
         }
         for (k, v) in &r.feature_counts {
             c.count_n(&format!("programs-with.{}", k), *v);
+        }
+        for (k, v) in &r.excluded_counts {
+            c.count_n(&format!("excluded-by-construction.{}", k), *v);
         }
         for w in &r.inconclusive {
             c.inconclusive(w);
